@@ -28,7 +28,7 @@ fn binding(name: &str, id: usize, ext: bool) -> ContextBinding {
     if ext {
         ContextBinding { var: ident(name, id), chi: Chirality::Ext, ty: Ty::I64 }
     } else {
-        ContextBinding { var: ident(name, id), chi: Chirality::Prd, ty: Ty::Decl(ident("T", 0)) }
+        ContextBinding { var: ident(name, id), chi: if id % 2 == 0 { Chirality::Prd } else { Chirality::Cns }, ty: Ty::Decl(ident("T", 0)) }
     }
 }
 
